@@ -56,8 +56,11 @@ func runC14(p *Prog, r *Report) {
 	c20Index(p, r)
 	freshPerIteration(p, r, "D4-conversion", "converter", "ToCDX", "Component")
 	freshPerIteration(p, r, "D4-conversion", "converter", "ToSPDX23", "Package")
+	r.Rule("D8-input-untouched", "the converters do not modify the scan result they convert")
+	inputsNotModified(p, r, "D8-input-untouched", "converter", "binary/proto")
 	r.Rule("D7-wellformed-omissions", "records without a name or version are left out exactly where the formats' audited omissions say (shared with C03 D3)")
 	c03Omissions(p, r, "D7-wellformed-omissions", p.FuncsIn(c03Packages...))
+	frozenHelperErrorExits(p, r, "D7-wellformed-omissions", c14HelperErrorExits)
 	for _, fn := range p.FuncsIn("purl", "packageindex", "converter", "binary/proto") {
 		pk := p.pkgOfFn(fn)
 		if pk != nil && p.isGenerated(pk, fn.Pos()) {
